@@ -148,3 +148,115 @@ Proof.
   { apply existsb_exists. exists y. split; [cbn [In]; lia|exact Hocc]. }
   rewrite Hex. reflexivity.
 Qed.
+
+(* ---- soundness, wide encoding (windows without '=') -------------------------- *)
+Lemma wide_chars_no_pad : forall s, (forall b, In b s -> b <> 61%N) -> wide_chars s = unwiden s.
+Proof.
+  fix IH 1. intros [|c [|z t]] H; cbn [wide_chars unwiden].
+  - reflexivity.
+  - assert (Hc : (c =? 61)%N = false) by (apply N.eqb_neq; apply H; left; reflexivity). rewrite Hc. reflexivity.
+  - destruct (z =? 0)%N; [|reflexivity].
+    rewrite (IH t) by (intros b Hb; apply H; right; right; exact Hb).
+    assert (Hc : (c =? 61)%N = false) by (apply N.eqb_neq; apply H; left; reflexivity). rewrite Hc. reflexivity.
+Qed.
+
+Lemma unwiden_length : forall s cs, unwiden s = Some cs -> 2 * length cs - 1 <= length s /\ length s <= 2 * length cs.
+Proof.
+  fix IH 1. intros [|c [|z t]] cs H; cbn [unwiden] in H.
+  - inversion H. cbn [length]. lia.
+  - inversion H. cbn [length]. lia.
+  - destruct (z =? 0)%N; [|discriminate]. destruct (unwiden t) as [r|] eqn:E; [|discriminate].
+    inversion H; subst cs. destruct (IH t r E). cbn [length]. lia.
+Qed.
+
+Lemma unwiden_firstn : forall s cs, unwiden s = Some cs -> forall k, k <= length cs ->
+  unwiden (firstn (2 * k) s) = Some (firstn k cs).
+Proof.
+  fix IH 1. intros [|c [|z t]] cs H k Hk; cbn [unwiden] in H.
+  - inversion H; subst cs. cbn [length] in Hk. assert (k = 0) by lia. subst k. reflexivity.
+  - inversion H; subst cs. cbn [length] in Hk. destruct k as [|[|k]]; [reflexivity|reflexivity|lia].
+  - destruct (z =? 0)%N eqn:Ez; [|discriminate]. destruct (unwiden t) as [r|] eqn:E; [|discriminate].
+    inversion H; subst cs. destruct k as [|k]; [reflexivity|].
+    replace (2 * S k) with (S (S (2 * k))) by lia. cbn [firstn unwiden]. rewrite Ez.
+    cbn [length] in Hk. rewrite (IH t r E k) by lia. reflexivity.
+Qed.
+
+Lemma firstn_In_bytes : forall (l : bytes) k b, In b (firstn k l) -> In b l.
+Proof.
+  induction l as [|a l IH]; intros k b H; destruct k; cbn [firstn] in H; try destruct H.
+  - left. assumption.
+  - right. eapply IH. eassumption.
+Qed.
+
+Theorem pipeline_base64_sound_wide_partial : forall lit d p pos alpha s e,
+  p <= 2 -> lit <> [] ->
+  (forall i, nth_error d i = Some 61%N -> False) ->
+  verify_base64 lit d p pos alpha true = Some (s, e) ->
+  sp_match (mkSP (KBase64 lit p alpha true) (mkF false false false false)) (0, 0)%N d s = Some (e, None).
+Proof.
+  intros lit d p pos alpha s e Hp Hne Hnopad H.
+  set (n := length lit) in *. assert (Hn : 1 <= n) by (unfold n; destruct lit; [congruence|cbn [length]; lia]).
+  unfold verify_base64 in H. fold n in H. rewrite (b64_table_formulas p n Hp Hn) in H.
+  cbn [unit_of] in H.
+  set (dlen := enc_len (p + n + (3 - (p + n) mod 3) mod 3)) in *.
+  destruct (Nat.ltb pos (core_start p * 2)) eqn:Lt; [discriminate|]. apply Nat.ltb_ge in Lt.
+  set (ws := pos - core_start p * 2) in *. set (raw := firstn (dlen * 2) (skipn ws d)) in *.
+  assert (Hrawnp : forall b, In b raw -> b <> 61%N).
+  { intros b Hb ->. unfold raw in Hb. apply firstn_In_bytes in Hb. apply skipn_In_bytes in Hb.
+    apply In_nth_error in Hb. destruct Hb as [i Hi]. exact (Hnopad i Hi). }
+  rewrite (wide_chars_no_pad raw Hrawnp) in H.
+  destruct (unwiden raw) as [enc|] eqn:Eu; [|discriminate].
+  destruct (b64_decode_strict alpha enc) as [dec|] eqn:Ed; [|discriminate].
+  destruct (Nat.leb (p + n) (length dec) && Nat.leb (pos + core_len p n * 2) (length d) && bytes_eqb (slice dec p n) lit) eqn:C;
+    [|discriminate].
+  inversion H; subst s e. clear H. rewrite !andb_true_iff in C. destruct C as [[C1 C2] C3].
+  apply Nat.leb_le in C1, C2. apply bytes_eqb_eq in C3.
+  apply b64_decode_strict_loose in Ed.
+  set (y := Nat.min 2 (length dec - (p + n))).
+  assert (Hy : y <= 2) by (unfold y; lia). assert (Hk : p + n + y <= length dec) by (unfold y; lia).
+  set (L := enc_len (p + n + y)).
+  pose proof (b64_decode_length _ _ _ Ed) as Hlen.
+  assert (HL : L <= length enc) by (rewrite Hlen; apply enc_len_mono; exact Hk).
+  destruct (unwiden_length _ _ Eu) as [Hl1 Hl2].
+  assert (Hrawlen : length raw <= dlen * 2) by (unfold raw; apply firstn_le_length).
+  assert (HLd : 2 * L <= dlen * 2) by lia.
+  assert (Hcs : firstn (2 * L) (skipn ws d) = firstn (2 * L) raw).
+  { unfold raw. rewrite firstn_firstn. f_equal. lia. }
+  unfold sp_match. cbn [sp_kind]. unfold b64_match_len. fold n. cbn [unit_of].
+  assert (Hocc : b64_occ_at alpha true lit p y d pos (core_len p n * 2) = true).
+  { unfold b64_occ_at. fold n. cbn [unit_of]. fold ws. fold L.
+    rewrite !andb_true_iff. repeat split.
+    - apply Nat.leb_le. exact Lt.
+    - apply Nat.eqb_refl.
+    - apply Nat.leb_le. exact C2.
+    - unfold window. rewrite Hcs.
+      assert (Hle : Nat.leb (2 * L - 1) (length (firstn (2 * L) raw)) = true).
+      { apply Nat.leb_le. rewrite firstn_length. lia. }
+      rewrite Hle. rewrite (unwiden_firstn _ _ Eu L HL).
+      unfold L. rewrite (b64_decode_firstn _ _ _ _ Ed Hk).
+      rewrite firstn_length_le by exact Hk. rewrite Nat.eqb_refl. cbn [andb].
+      apply prefix_b_eqb_firstn. fold n.
+      rewrite skipn_firstn_comm, firstn_firstn. replace (Nat.min n (p + n + y - p)) with n by lia.
+      exact C3. }
+  assert (Hex : existsb (fun ylen => b64_occ_at alpha true lit p ylen d pos (core_len p n * 2)) [0; 1; 2] = true).
+  { apply existsb_exists. exists y. split; [cbn [In]; lia|exact Hocc]. }
+  rewrite Hex. reflexivity.
+Qed.
+
+(* Without the side condition the statement is FALSE for the faithful model: a '='
+   at an even offset anywhere in the wide window is dropped before decoding, not only
+   trailing padding.  "foob" base64wide on the wide form of "..Zm9v=YgA..": the model
+   (and the implementation: replayed, reports (4,10)) accepts, although "Zm9v=" is not
+   the base64 encoding of anything.  Known finding C01:scan:base64wide-pad-inside-window. *)
+Definition b64w_pad_lit : bytes := [102; 111; 111; 98]%N.
+Definition b64w_pad_data : bytes :=
+  widen [46; 46; 90; 109; 57; 118; 61; 89; 103; 65; 46; 46]%N.
+
+Theorem pipeline_base64_sound_wide_refuted :
+  exists lit d p pos alpha s e, p <= 2 /\ lit <> [] /\
+    verify_base64 lit d p pos alpha true = Some (s, e) /\
+    sp_match (mkSP (KBase64 lit p alpha true) (mkF false false false false)) (0, 0)%N d s = None.
+Proof.
+  exists b64w_pad_lit, b64w_pad_data, 0, 4, std_alphabet, 4, 14.
+  split; [lia|]. split; [discriminate|]. split; vm_compute; reflexivity.
+Qed.
